@@ -271,7 +271,9 @@ def map_children(t, r):
         return ("slice", r(t[1]), r(t[2]), r(t[3]))
     if k == "call":
         return ("call", r(t[1]), tuple(r(x) for x in t[2]), tuple((kk, r(v)) for kk, v in t[3]))
-    if k in ("bin", "cmp"):
+    if k == "cmp":
+        return _norm_cmp(t[1], r(t[2]), r(t[3]))
+    if k == "bin":
         return (k, t[1], r(t[2]), r(t[3]))
     if k == "un":
         return ("un", t[1], r(t[2]))
@@ -1546,6 +1548,11 @@ def _norm_cmp(op, a, b):
     """Orient comparisons so that a constant operand is on the right (x > 3, never 3 < x)."""
     if a[0] == "const" and b[0] != "const" and op in _FLIP:
         return ("cmp", _FLIP[op], b, a)
+    if op in ("is", "is not") and b == NONE and a[0] == "ite" and NONE in (a[2], a[3]):
+        # `found = <x if c else None>; if found is not None` - the search idiom: the test is c (and x itself not None)
+        c, x = (a[1], a[2]) if a[3] == NONE else (neg(a[1]), a[3])
+        inner = _norm_cmp(op, x, NONE)
+        return mk_bool("and", [c, inner]) if op == "is not" else mk_bool("or", [neg(c), inner])
     return ("cmp", op, a, b)
 
 
@@ -1953,6 +1960,22 @@ def generator_sources(te: "TermEval", summ: Summary, t, depth: int = 2) -> list:
     return out
 
 
+def refusal_literals(summ: Summary) -> set:
+    """The literals under which the function (or a callee looked through) refuses by raising."""
+    out = set()
+    for pc, _ in raise_conditions(summ):
+        for c in pc:
+            out.update(literals(c))
+    return out
+
+
+def passed_refusal(l, refusal: set) -> bool:
+    """Is literal `l` nothing but "an earlier refusal did not happen" - the negation of a raise condition, or of a
+    conjunction of raise conditions?"""
+    n = neg(l)
+    return n in refusal or all(x in refusal for x in literals(n))
+
+
 def field_resolver(te: "TermEval", cls, depth: int = 4, skip=()):
     """-> resolve(term): every read of an instance field `self.f` (of `cls`) that the constructor stores exactly once,
     on its refusal-free path, is replaced by the stored value - a term over the constructor's *parameters*.  Rules
@@ -1970,7 +1993,7 @@ def field_resolver(te: "TermEval", cls, depth: int = 4, skip=()):
         for obj, key, val, e in attr_stores(isum):
             if obj == SELF and key[0] == "const":
                 count[key[1]] = count.get(key[1], 0) + 1
-                if not e.ctx and all(neg(l) in refusal for l in e.pc):
+                if not e.ctx and all(passed_refusal(l, refusal) for l in e.pc):
                     stored[key[1]] = val
         stored = {k: v for k, v in stored.items() if count.get(k) == 1 and k not in skip}
     # fields stored anywhere else as well are not constants of the object
